@@ -67,6 +67,8 @@ fn run_kind<'s, I: Kind<'s>>(sub: &str, g: &G, toks: &[char], mk: &dyn Fn() -> I
     let p = {
         let mut bld = Bld::<I, chumsky::error::Rich<'s, I::Tok, I::Spn>>::new(g, true);
         bld.obs_state = true;
+        // BorrowInput kinds: half of the cases consume through any_ref / select_ref! (their own path to the inspector)
+        bld.borrow_prims = I::BORROW && (g.size() + toks.len()) % 2 == 1;
         bld.build(g)
     };
     // state guard: select closures reject a token when the state they see is not the fold of the tokens before the
@@ -226,6 +228,9 @@ pub fn templates() -> Vec<G> {
         G::Then(b(G::ThenIgnore(b(G::Any), b(G::Then(b(G::OrNot(b(j("b")))), b(G::Select("abc".into())))))), b(rep(G::Any, 0, None, Sink::Vec))),
         G::Then(b(rep(G::Then(b(G::Select("ab".into())), b(G::Select("ab".into()))), 0, None, Sink::Bare)), b(rep(G::Any, 0, None, Sink::Vec))),
         G::Then(b(G::AndIs(b(G::Then(b(G::Any), b(G::Any))), b(G::Not(b(G::Then(b(G::Select("a".into())), b(G::Select("b".into())))))))), b(rep(G::Any, 0, None, Sink::Vec))),
+        // a lookahead that runs under its own with_state and consumes exactly as much as the kept parser
+        G::Then(b(G::AndIs(b(G::Then(b(G::Any), b(G::Any))), b(G::WithState(b(G::Then(b(G::Any), b(G::Any))), 2)))), b(rep(G::Any, 0, None, Sink::Vec))),
+        G::Then(b(G::Any), b(G::Then(b(G::AndIs(b(G::Any), b(G::WithState(b(G::Any), 3)))), b(rep(G::Any, 0, None, Sink::Vec))))),
         // with_state: fresh copy per invocation, outer untouched
         G::Then(b(rep(G::WithState(b(G::Then(b(G::Any), b(G::OrNot(b(j("b")))))), 3), 0, None, Sink::Vec)), b(G::End)),
         G::Then(b(G::Any), b(G::Then(b(G::WithState(b(rep(G::OneOf("ab".into()), 0, None, Sink::Vec)), 2)), b(rep(G::Any, 0, None, Sink::Vec))))),
@@ -292,6 +297,25 @@ fn text_family<'a>() -> Vec<(&'static str, chumsky::Boxed<'a, 'a, &'a str, Vec<O
                 .repeated()
                 .collect::<Vec<Ob>>()
                 .boxed(),
+        ),
+        (
+            "custom: peek_maybe / peek decide, next consumes (an optional sign before a token)",
+            custom::<_, &str, (), TE>(|inp| {
+                let before = inp.cursor();
+                let signed = matches!(inp.peek_maybe().as_deref(), Some('!'));
+                if signed {
+                    inp.skip();
+                }
+                let _ = inp.peek();
+                match inp.next() {
+                    Some(_) => Ok(()),
+                    None => Err(chumsky::error::Rich::custom(inp.span_since(&before), "eof")),
+                }
+            })
+            .map_with(move |_, e| ob(e))
+            .repeated()
+            .collect::<Vec<Ob>>()
+            .boxed(),
         ),
         (
             "whitespace().then(int(10)).rewind().then(any().padded())",
